@@ -202,4 +202,183 @@ theorem addSolution_err (primary : String → Option String) (a : Acc) (s : Sol)
   simp only [true_and]
   omega
 
+theorem mixAdd_get (m : MixComps) (n k : Int) (f : Rat) :
+    (mixAdd m n f)[k]? = if n = k then some (m[n]?.getD 0 + f) else m[k]? := by
+  unfold mixAdd
+  cases h : m[n]? <;> simp only [ExtTreeMap.getElem?_insert, Option.getD] <;>
+    (by_cases hk : n = k
+     · simp [hk, Rat.zero_add]
+     · have : compare n k ≠ .eq := fun hc => hk (Std.LawfulEqCmp.eq_of_compare hc)
+       simp [hk, this])
+
+def mixStep (primary : String → Option String) (store : Int → Option Sol) (w : Int × Rat → Rat) (acc : Acc)
+    (nf : Int × Rat) : Acc :=
+  match store nf.1 with
+  | some sol => addSolution primary acc sol nf.2 (w nf)
+  | none => { acc with err := acc.err + 2 }
+
+theorem mixStep_comm (primary : String → Option String) (store : Int → Option Sol) (w : Int × Rat → Rat) (acc : Acc)
+    (x y : Int × Rat) :
+    mixStep primary store w (mixStep primary store w acc x) y = mixStep primary store w (mixStep primary store w acc y) x := by
+  unfold mixStep
+  cases hx : store x.1 <;> cases hy : store y.1 <;> simp only
+  · rw [addSolution_err]
+  · rw [addSolution_err]
+  · exact addSolution_comm ..
+
+theorem sums_perm (store : Int → Option Sol) (l₁ l₂ : List (Int × Rat)) (hp : l₁.Perm l₂) :
+    sums store l₁ = sums store l₂ := by
+  unfold sums
+  apply hp.foldl_eq'
+  intro x _ y _ s
+  cases hx : store x.1 <;> cases hy : store y.1 <;> simp only
+  by_cases h1 : (0 : Rat) < x.2 <;> by_cases h2 : (0 : Rat) < y.2 <;> simp only [h1, h2, if_true, if_false, Sums.mk.injEq] <;> grind
+
+theorem addMix_eq (primary : String → Option String) (store : Int → Option Sol) (comps : List (Int × Rat)) (a : Acc) :
+    addMix primary store comps a =
+      if comps.isEmpty then a else
+      comps.foldl (mixStep primary store
+        (fun nf => match store nf.1 with
+          | some sol => intensiveWater (sums store comps) comps.length nf.2 sol.water
+          | none => 0)) a := by
+  unfold addMix
+  split
+  · rfl
+  · simp only
+    congr 1
+    funext acc nf
+    unfold mixStep
+    cases h : store nf.1 <;> simp [h]
+
+theorem applyOps_entryOps_add (primary : String → Option String) (a b : Rat) (l : List (String × Rat)) (m : Totals) :
+    applyOps (applyOps m (entryOps primary a l)) (entryOps primary b l) = applyOps m (entryOps primary (a + b) l) := by
+  induction l generalizing m with
+  | nil => rfl
+  | cons kv l ih =>
+    unfold entryOps
+    cases h : primary kv.1 with
+    | none => simp only [List.filterMap_cons, h, Option.map_none]; exact ih m
+    | some p =>
+      simp only [List.filterMap_cons, h, Option.map_some]
+      show applyOps (applyOps (addAt m p (kv.2 * a)) (entryOps primary a l)) ((p, kv.2 * b) :: entryOps primary b l) =
+        applyOps (addAt m p (kv.2 * (a + b))) (entryOps primary (a + b) l)
+      rw [applyOps_comm]
+      show applyOps (applyOps (addAt (addAt m p (kv.2 * a)) p (kv.2 * b)) (entryOps primary b l)) (entryOps primary a l) = _
+      rw [applyOps_comm, addAt_addAt, ih]
+      congr 2; grind
+
+def sumsStep (store : Int → Option Sol) (s : Sums) (nf : Int × Rat) : Sums :=
+  match store nf.1 with
+  | some sol => ⟨s.fw + nf.2 * sol.water, if (0 : Rat) < nf.2 then s.pw + nf.2 * sol.water else s.pw,
+                 if (0 : Rat) < nf.2 then s.npos + 1 else s.npos⟩
+  | none => s
+
+theorem sums_eq (store : Int → Option Sol) (l : List (Int × Rat)) : sums store l = l.foldl (sumsStep store) ⟨0, 0, 0⟩ := rfl
+
+theorem sumsStep_rel (store : Int → Option Sol) (l : List (Int × Rat)) (s t : Sums)
+    (h1 : s.fw = t.fw) (h2 : s.pw = t.pw) (h3 : s.npos = t.npos + 1) :
+    (l.foldl (sumsStep store) s).fw = (l.foldl (sumsStep store) t).fw ∧
+    (l.foldl (sumsStep store) s).pw = (l.foldl (sumsStep store) t).pw ∧
+    (l.foldl (sumsStep store) s).npos = (l.foldl (sumsStep store) t).npos + 1 := by
+  induction l generalizing s t with
+  | nil => exact ⟨h1, h2, h3⟩
+  | cons x l ih =>
+    simp only [List.foldl_cons]
+    apply ih
+    · unfold sumsStep; cases store x.1 <;> simp [h1]
+    · unfold sumsStep; cases store x.1 <;> simp [h2]
+    · unfold sumsStep; cases store x.1 <;> simp only [h3]
+      split <;> rfl
+
+theorem div_add_div_same (x y d : Rat) : x / d + y / d = (x + y) / d := by
+  simp only [Rat.div_def, Rat.add_mul]
+
+theorem mix_scalar (c : Prop) [Decidable c] (x t a b w P F : Rat) :
+    x + t * (if c then a * w / P else a * w / F) + t * (if c then b * w / P else b * w / F) =
+      x + t * (if c then (a + b) * w / P else (a + b) * w / F) := by
+  split <;> rw [Rat.add_assoc, ← Rat.mul_add, div_add_div_same, ← Rat.add_mul]
+
+theorem addAt_scale (m : Totals) (p : String) (v k : Rat) :
+    addAt (multiplyTotals m k) p (v * k) = multiplyTotals (addAt m p v) k := by
+  unfold multiplyTotals
+  apply totals_ext; intro a
+  simp only [get_addAt, get_map]
+  split
+  · cases m[p]? <;> simp <;> grind
+  · rfl
+
+theorem applyOps_scale (m : Totals) (k : Rat) (ops : List (String × Rat)) :
+    applyOps (multiplyTotals m k) (ops.map fun pv => (pv.1, pv.2 * k)) = multiplyTotals (applyOps m ops) k := by
+  induction ops generalizing m with
+  | nil => rfl
+  | cons o os ih =>
+    show applyOps (addAt (multiplyTotals m k) o.1 (o.2 * k)) (os.map fun pv => (pv.1, pv.2 * k)) = _
+    rw [addAt_scale, ih]; rfl
+
+theorem toList_scale (m : Totals) (k : Rat) :
+    (multiplyTotals m k).toList = m.toList.map fun pv => (pv.1, pv.2 * k) := by
+  unfold multiplyTotals; rw [ExtTreeMap.toList_map]
+
+theorem entryOps_scale (primary : String → Option String) (f k : Rat) (l : List (String × Rat)) :
+    entryOps primary f (l.map fun pv => (pv.1, pv.2 * k)) = (entryOps primary f l).map fun pv => (pv.1, pv.2 * k) := by
+  induction l with
+  | nil => rfl
+  | cons kv l ih =>
+    unfold entryOps at ih ⊢
+    simp only [List.map_cons, List.filterMap_cons]
+    cases h : primary kv.1 with
+    | none => simp only [Option.map_none]; exact ih
+    | some p => simp only [Option.map_some, List.map_cons, ih]; congr 2; grind
+
+theorem nErr_scale (primary : String → Option String) (k : Rat) (l : List (String × Rat)) :
+    nErr primary (l.map fun pv => (pv.1, pv.2 * k)) = nErr primary l := by
+  unfold nErr
+  induction l with
+  | nil => rfl
+  | cons kv l ih => simp only [List.map_cons, List.filter_cons]; split <;> simp [ih]
+
+theorem addSolution_scale (primary : String → Option String) (a : Acc) (s : Sol) (f i k : Rat) :
+    addSolution primary (a.scale k) (s.scale k) f i = (addSolution primary a s f i).scale k := by
+  simp only [addSolution_eq, Acc.scale, Sol.scale, toList_scale, entryOps_scale, applyOps_scale, nErr_scale, Acc.mk.injEq]
+  grind
+
+theorem sums_scale (store : Int → Option Sol) (k : Rat) (l : List (Int × Rat)) (s t : Sums)
+    (h1 : s.fw = t.fw * k) (h2 : s.pw = t.pw * k) (h3 : s.npos = t.npos) :
+    (l.foldl (sumsStep (fun n => (store n).map (·.scale k))) s).fw = (l.foldl (sumsStep store) t).fw * k ∧
+    (l.foldl (sumsStep (fun n => (store n).map (·.scale k))) s).pw = (l.foldl (sumsStep store) t).pw * k ∧
+    (l.foldl (sumsStep (fun n => (store n).map (·.scale k))) s).npos = (l.foldl (sumsStep store) t).npos := by
+  induction l generalizing s t with
+  | nil => exact ⟨h1, h2, h3⟩
+  | cons x l ih =>
+    simp only [List.foldl_cons]
+    apply ih
+    · simp only [sumsStep]; cases h : store x.1 <;> simp [h1, Sol.scale] <;> grind
+    · simp only [sumsStep]; cases h : store x.1 <;> simp [h2, Sol.scale] <;> split <;> grind
+    · simp only [sumsStep]; cases h : store x.1 <;> simp [h3]
+
+theorem mul_div_mul_right (x y k : Rat) (hk : k ≠ 0) : x * k / (y * k) = x / y := by
+  rw [Rat.div_def, Rat.div_def, Rat.inv_mul_rev, Rat.mul_assoc, ← Rat.mul_assoc k, Rat.mul_inv_cancel k hk, Rat.one_mul]
+
+theorem foldl_mixStep_scale (primary : String → Option String) (store : Int → Option Sol) (k : Rat) (n : Nat) (sm sm' : Sums)
+    (hw : ∀ (f w : Rat), intensiveWater sm' n f (w * k) = intensiveWater sm n f w) (comps : List (Int × Rat)) (a : Acc) :
+    comps.foldl (mixStep primary (fun n => (store n).map (·.scale k))
+        (fun nf => match (store nf.1).map (·.scale k) with | some sol => intensiveWater sm' n nf.2 sol.water | none => 0))
+        (a.scale k) =
+      (comps.foldl (mixStep primary store
+        (fun nf => match store nf.1 with | some sol => intensiveWater sm n nf.2 sol.water | none => 0)) a).scale k := by
+  induction comps generalizing a with
+  | nil => rfl
+  | cons x xs ih =>
+    simp only [List.foldl_cons]
+    rw [← ih]
+    congr 1
+    simp only [mixStep]
+    cases h : store x.1 with
+    | none => simp [Acc.scale]
+    | some sol =>
+      simp only [Option.map_some]
+      rw [← addSolution_scale]
+      congr 1
+      exact hw x.2 sol.water
+
 end PhreeqcVerif.MixAlg
